@@ -1501,6 +1501,213 @@ def q_retrier_end_state(o, tier):
             'functions': ['watchtower_plugin::retrier::Retrier::start::{closure#0}', 'RetryError::is_permanent']}
 
 
+def q_retrier_start_status(o, tier):
+    """C13.M7: Retrier::start, before the task is spawned: on every path the tower is flagged TemporaryUnreachable unless its
+    status *is a subscription error* (which must survive so that the run re-registers first). While a retrier runs the tower
+    must not be shown Unreachable: on_commitment_revocation hands new appointments to the retry manager only for towers that
+    are not Unreachable, so a round started from idle would otherwise never learn about them, succeed, and leave them
+    pending for ever behind a "reachable" tower."""
+    funcs, idx, t_mir, err = load_mir('watchtower-plugin', 'lib')
+    if funcs is None:
+        return {'verdict': 'inconclusive', 'reason': 'MIR dump failed'}
+    n = [x for x in funcs if re.match(r'^retrier::<impl at .*?>::start$', x)]
+    if len(n) != 1:
+        return {'verdict': 'inconclusive', 'reason': 'Retrier::start not found'}
+    f = funcs[n[0]]
+    rows = enum_paths(f, min(f.blocks), r'tokio::spawn|task::spawn')
+    if rows is None:
+        return {'verdict': 'inconclusive', 'reason': 'path explosion'}
+    rows = [r for r in rows if r[-1][0] == 'stop']
+    if not rows:
+        return {'verdict': 'inconclusive', 'reason': 'no path reaches the spawn'}
+
+    def flagged(r):
+        ev = list(r)
+        for k, e in enumerate(ev):
+            if e == ('call', 'WTClient::set_tower_status'):
+                mk = [x[1] for x in ev[:k] if x[0] == 'mk' and x[1].startswith('TowerStatus::')]
+                if mk and mk[-1] == 'TowerStatus::TemporaryUnreachable':
+                    return True
+        return False
+
+    def sub_error(r):
+        return any(e[0] == 'branch' and e[1] == 'TowerStatus::is_subscription_error' and e[2] != '0' for e in r)
+
+    def running(r):
+        ev = list(r)
+        return any(e == ('call', 'Retrier::set_status') and [x[1] for x in ev[:k] if x[0] == 'mk' and x[1].startswith('RetrierStatus::')][-1:] == ['RetrierStatus::Running']
+                   for k, e in enumerate(ev))
+    if not any(flagged(r) for r in rows):
+        return {'verdict': 'inconclusive', 'reason': 'vacuous: no path flags the tower'}
+    failed = []
+    v, i, dt, out = _exists(rows, lambda r: not flagged(r) and not sub_error(r), 'status')
+    if v == 'inconclusive':
+        return {'verdict': 'inconclusive', 'reason': out[:200]}
+    if v == 'sat':
+        failed.append({'description': 'a retry round can start without the tower being flagged TemporaryUnreachable although its status is not a subscription error: appointments that arrive during the round never reach the retrier',
+                       'function': 'Retrier::start', 'schedule': [list(e) for e in rows[i] if e[0] in ('call', 'branch', 'mk')][:14]})
+    v2, i2, dt2, out2 = _exists(rows, lambda r: not running(r), 'running')
+    if v2 == 'sat':
+        failed.append({'description': 'the task can be spawned without the retrier having been marked Running first (a second loop for the same tower could be started)',
+                       'function': 'Retrier::start', 'schedule': [list(e) for e in rows[i2] if e[0] in ('call', 'branch', 'mk')][:14]})
+    return {'verdict': 'fails' if failed else 'holds', 'failed': failed, 'queries': 2, 'solver_s': dt + dt2,
+            'witness': {'paths': len(rows), 'flagged': sum(1 for r in rows if flagged(r)), 'subscription_error': sum(1 for r in rows if sub_error(r))},
+            'functions': ['watchtower_plugin::retrier::Retrier::start']}
+
+
+def q_registration_extends(o, tier):
+    """C14.M5: symbolic execution of the MIR of WTClient::add_update_tower up to DBM::store_tower_record. Symbolic 32-bit
+    values: the receipt's expiry and slots (results of RegistrationReceipt::subscription_expiry / available_slots), the
+    u32 fields read from the in-memory summary found by HashMap::get and from the record returned by load_tower_record
+    (resolved to field names through the struct aggregates in the MIR); symbolic booleans: "the tower is known" (the Option
+    discriminant of the look-up) and the result of every other boolean call. Path conditions are the comparison statements
+    (Le/Lt/Ge/Gt/Eq/Ne as bit-vector predicates) and the switches taken. Query (z3 and cvc5): exists a path to the store and
+    values with the tower known such that NOT (receipt expiry > known expiry AND receipt slots > recorded slots)."""
+    funcs, idx, t_mir, err = load_mir('watchtower-plugin', 'lib')
+    if funcs is None:
+        return {'verdict': 'inconclusive', 'reason': 'MIR dump failed'}
+    n = [x for x in funcs if re.match(r'^wt_client::<impl at .*?>::add_update_tower$', x)]
+    if len(n) != 1:
+        return {'verdict': 'inconclusive', 'reason': 'WTClient::add_update_tower not found'}
+    f = funcs[n[0]]
+
+    # field index -> name for the two structs, from any aggregate `_0 = T { a: .., b: .. }` in the crate
+    def field_names(struct):
+        for fn_ in funcs.values():
+            for b in fn_.blocks.values():
+                for s_ in b.stmts:
+                    m = re.match(r'^_\d+ = %s \{(.*)\};$' % struct, s_)
+                    if m:
+                        return [x.split(':')[0].strip() for x in m.group(1).split(',')]
+        return None
+    fs_sum, fs_info = field_names('TowerSummary'), field_names('TowerInfo')
+    if not fs_sum or not fs_info:
+        return {'verdict': 'inconclusive', 'reason': 'struct layouts of TowerSummary / TowerInfo not found in the MIR'}
+    OPS = {'Le': 'bvule', 'Lt': 'bvult', 'Ge': 'bvuge', 'Gt': 'bvugt', 'Eq': '=', 'Ne': 'distinct'}
+    paths, stack, steps = [], [(min(f.blocks), {}, (), {})], 0
+    decls = {}
+
+    def val(env, operand):
+        loc = operand.strip().split()[-1]
+        return env.get(loc)
+    while stack:
+        bb, env, conds, vis = stack.pop()
+        steps += 1
+        if steps > 200000:
+            return {'verdict': 'inconclusive', 'reason': 'path explosion'}
+        if vis.get(bb, 0) >= 1:
+            continue
+        vis = dict(vis)
+        vis[bb] = 1
+        env = dict(env)
+        b = f.blocks[bb]
+        if b.cleanup:
+            continue
+        for s_ in b.stmts:
+            m = re.match(r'^(_\d+) = (?:copy|move) \(\(_(\d+) as Some\)\.0: (.*)\);$', s_)
+            if m:
+                env[m.group(1)] = ('ref', env.get('_' + m.group(2), ('opt', '?'))[1])
+                continue
+            m = re.match(r'^(_\d+) = (?:copy|move) \(\(\*(_\d+)\)\.(\d+): u32\);$', s_) or re.match(r'^(_\d+) = (?:copy|move) \((_\d+)\.(\d+): u32\);$', s_)
+            if m:
+                src = env.get(m.group(2))
+                if src and src[0] in ('ref', 'val'):
+                    names = fs_sum if src[1] == 'summary' else fs_info if src[1] == 'info' else None
+                    k = int(m.group(3))
+                    nm = '%s_%s' % (src[1], names[k] if names and k < len(names) else 'f%d' % k)
+                    decls[nm] = 'bv'
+                    env[m.group(1)] = ('bv', nm)
+                continue
+            m = re.match(r'^(_\d+) = (Le|Lt|Ge|Gt|Eq|Ne)\((.+?), (.+?)\);$', s_)
+            if m:
+                a, c = val(env, m.group(3)), val(env, m.group(4))
+                if a and c and a[0] == 'bv' and c[0] == 'bv':
+                    env[m.group(1)] = ('bool', '(%s %s %s)' % (OPS[m.group(2)], a[1], c[1]))
+                continue
+            m = re.match(r'^(_\d+) = (?:copy|move) (_\d+);$', s_)
+            if m and m.group(2) in env:
+                env[m.group(1)] = env[m.group(2)]
+                continue
+            m = re.match(r'^(_\d+) = Not\((?:copy|move) (_\d+)\);$', s_)
+            if m and env.get(m.group(2), ('', ''))[0] == 'bool':
+                env[m.group(1)] = ('bool', '(not %s)' % env[m.group(2)][1])
+                continue
+            m = re.match(r'^(_\d+) = discriminant\((_\d+)\);$', s_)
+            if m and env.get(m.group(2), ('', ''))[0] == 'opt':
+                env[m.group(1)] = ('disc', env[m.group(2)][1])
+        t = b.term
+        if t['kind'] == 'call':
+            cs = call_short(t['callee'])
+            if re.search(r'DBM::store_tower_record$', t['callee']):
+                paths.append(conds)
+                continue
+            d = t['dest']
+            if d:
+                if re.search(r'HashMap::<.*TowerSummary>::get(?:::<.*>)?$', t['callee']):
+                    env[d] = ('opt', 'summary')
+                elif cs == 'RegistrationReceipt::subscription_expiry':
+                    decls['r_expiry'] = 'bv'
+                    env[d] = ('bv', 'r_expiry')
+                elif cs == 'RegistrationReceipt::available_slots':
+                    decls['r_slots'] = 'bv'
+                    env[d] = ('bv', 'r_slots')
+                elif cs == 'DBM::load_tower_record':
+                    env[d] = ('opt', 'info')
+                elif re.search(r'Option::<.*TowerInfo>::(unwrap|expect)$', t['callee']):
+                    a0 = val(env, t['args'][0]) if t['args'] else None
+                    env[d] = ('val', 'info') if a0 and a0[1] == 'info' else ('val', '?')
+                else:
+                    nm = 'c_' + re.sub(r'\W+', '_', cs)
+                    decls[nm] = 'bool'
+                    env[d] = ('bool', nm)
+            if t['next']:
+                stack.append((t['next'], env, conds, vis))
+        elif t['kind'] == 'switch':
+            op = t['operand'].strip().split()[-1]
+            v_ = env.get(op)
+            for tv, tg in t['targets']:
+                c2 = conds
+                if v_ and v_[0] == 'bool':
+                    c2 = conds + ((v_[1] if tv != '0' else '(not %s)' % v_[1]),)
+                elif v_ and v_[0] == 'disc' and v_[1] == 'summary':
+                    if tv == '1':
+                        c2 = conds + ('known',)
+                    elif tv == '0':
+                        c2 = conds + ('(not known)',)
+                    else:
+                        continue        # the unreachable arm of the Option match
+                stack.append((tg, env, c2, vis))
+        elif t['kind'] in ('goto', 'drop', 'assert'):
+            stack.append((t['next'], env, conds, vis))
+    if not paths:
+        return {'verdict': 'inconclusive', 'reason': 'no path reaches DBM::store_tower_record'}
+    need = ('r_expiry', 'r_slots', 'summary_subscription_expiry', 'info_available_slots')
+    for x in need:
+        decls.setdefault(x, 'bv')
+    text = '(set-logic ALL)\n(declare-const known Bool)\n(declare-const k Int)\n'
+    for nm, ty in sorted(decls.items()):
+        text += '(declare-const %s %s)\n' % (nm, '(_ BitVec 32)' if ty == 'bv' else 'Bool')
+    disj = ['(and (= k %d) %s)' % (i, ' '.join(c) if c else 'true') for i, c in enumerate(paths)]
+    text += '(assert (or false %s))\n' % ' '.join(disj)
+    text += '(assert known)\n(assert (not (and (bvugt r_expiry summary_subscription_expiry) (bvugt r_slots info_available_slots))))\n(check-sat)\n(get-model)\n'
+    v, out, dt = smt(text)
+    if v == 'inconclusive':
+        return {'verdict': 'inconclusive', 'reason': out[:200]}
+    failed = []
+    if v == 'sat':
+        k = int(re.search(r'define-fun k \(\) Int\s+(\d+)', out).group(1))
+        model = {m_.group(1): m_.group(2) for m_ in re.finditer(r'define-fun (\w+) \(\) (?:\(_ BitVec 32\)|Bool)\s+(#x[0-9a-f]+|true|false)', out)}
+        failed.append({'description': 'WTClient::add_update_tower can store a registration for a known tower that does not strictly extend the known subscription (expiry and slots)',
+                       'function': 'WTClient::add_update_tower', 'pre_state': model, 'schedule': list(paths[k])})
+    # vacuity: the same query without the negated property must be satisfiable (a path to the store exists for a known tower)
+    v3, out3, dt3 = smt(text.replace('(assert (not (and (bvugt r_expiry summary_subscription_expiry) (bvugt r_slots info_available_slots))))\n', ''))
+    if v3 != 'sat':
+        return {'verdict': 'inconclusive', 'reason': 'vacuous: a known tower can never be updated (%s)' % v3}
+    return {'verdict': 'fails' if failed else 'holds', 'failed': failed, 'queries': 2, 'solver_s': dt + dt3,
+            'witness': {'paths_to_store': len(paths), 'conditions': [list(c) for c in paths][:6], 'symbols': sorted(decls)},
+            'functions': ['watchtower_plugin::wt_client::WTClient::add_update_tower']}
+
+
 def q_retry_data_kept(o, tier):
     """C13.M5: RetryManager::manage_retry, one received message (tower_id, data). Every path from the reception back to the
     next reception either (a) finds the tower abandoned (contains_key false), (b) hands the data to
@@ -1941,6 +2148,8 @@ QUERIES = {
     'purge_vs_store': q_purge_vs_store,
     'mirror_reload': q_mirror_reload,
     'retrier_end_state': q_retrier_end_state,
+    'retrier_start_status': q_retrier_start_status,
+    'registration_extends': q_registration_extends,
 }
 
 
